@@ -403,6 +403,8 @@ const (
 	LayoutSpaces
 	LayoutComments // newline and a // comment between every pair of tokens
 	LayoutCRLFTabs
+	LayoutEmptyComments // an empty line comment (`//` directly followed by the newline) between every pair of tokens
+	LayoutFormFeed      // blank lines, one-character and adjacent line comments, trailing spaces
 	NLayouts
 )
 
@@ -427,6 +429,10 @@ func Join(toks []string, l Layout) string {
 				sb.WriteString(" // é \"c\" */ if\n\t")
 			case LayoutCRLFTabs:
 				sb.WriteString("\r\n\t")
+			case LayoutEmptyComments:
+				sb.WriteString("//\n")
+			case LayoutFormFeed:
+				sb.WriteString(" \n\n //x\n// y\n \t")
 			}
 		}
 		sb.WriteString(t)
